@@ -65,7 +65,6 @@ THEOREMS = [
     'CpProofs.C19.tryDecodeHeader_latin1',
     'CpProofs.C19.digest_rfc2617_client_latin1',
     'CpProofs.C19.tools_hooked',
-    'CpProofs.C19.lifetime_default',
 ]
 LEVEL = 'proof'
 TECHNIQUE = ('Lean 4 proof over a statement-by-statement model of basic_auth / digest_auth with the hash, base64, '
@@ -339,6 +338,9 @@ def oracle(case, obs):
         return bad
     if obs['ran'] and st != 200:
         bad.append(('handler ran but the status is %d' % st, 'ran_without_200:' + cfg['tool']))
+    if st == 200 and not obs['ran']:
+        bad.append(('200 although the probe handler did not run: %r' % (case['header'],), '200_without_handler:' + cfg['tool']))
+        return bad
     now = int(case['now'])
     if case.get('oracle') == 'no5xx':
         # nonces only a holder of the server key can make: outside the statement, model comparison only
